@@ -133,6 +133,11 @@ func c12Scenario(res *ev.Result, unit string, seed uint64, pinned bool) {
 				if sts[i].Dead() || sts[j].Dead() {
 					return
 				}
+				// lazy sequences of one tree stay valid while other trees are queried
+				sts[i].PendingSeqs(r, func() { sts[j].PendingSeqs(r, nil) })
+				if sts[i].Dead() || sts[j].Dead() {
+					return
+				}
 			}
 		}
 		if pinned && burstNo%6 == 0 {
